@@ -216,7 +216,7 @@ pub fn replay_other(run: &'static Run, kind: &str, case: &J) -> Option<i32> {
             fenbad::replay(run, case);
             Some(0)
         }
-        "tt-ops" | "tt-fill" | "tt-generations" => {
+        "tt-ops" | "tt-fill" | "tt-fill-large" | "tt-generations" => {
             tt::replay(run, case);
             Some(0)
         }
@@ -510,6 +510,9 @@ fn c19(run: &Run) -> i32 {
         fill_sizes.extend([5, 7, 16, 64]);
     }
     let x = tt::fill_indicator(run, &fill_sizes);
+    s += x.0;
+    t += x.1;
+    let x = tt::fill_large(run, if run.quick() { 128 } else { 512 });
     s += x.0;
     t += x.1;
     for sz in &sizes {
